@@ -28,9 +28,13 @@ func formOK(ft *nfault, ef *eform) bool {
 			return true
 		}
 		return false
+	case "clone-non-object":
+		if strings.HasPrefix(ef.name, "interpolation") || ef.name == "foreach-subject" {
+			return false
+		}
 	}
-	if ef.name == "interpolation" {
-		return strings.HasPrefix(ft.expr, "$")
+	if ef.name == "interpolation" || ef.name == "interpolation-heredoc" {
+		return strings.HasPrefix(ft.expr, "$") && !strings.HasSuffix(ft.expr, "$zero)")
 	}
 	if ef.name == "foreach-subject" {
 		// the error must come from evaluating the subject, not from iterating its value
@@ -71,7 +75,7 @@ func (nc nestCase) accepts(line int) bool {
 
 func checkNest(c *vh.Ctx, nc nestCase, n int) bool {
 	var got int
-	var what string
+	var what, file string
 	if nc.CLI {
 		got, what = cliReportedLine(c, nc, n)
 		if got == -2 {
@@ -79,7 +83,7 @@ func checkNest(c *vh.Ctx, nc nestCase, n int) bool {
 		}
 		c.Hit("nest:cli")
 	} else {
-		got, what = reportedAt(c, nc.source(), nc.Ext, n)
+		got, file, what = reportedFileLine(c, nc.source(), nc.Ext, n)
 	}
 	key := fmt.Sprintf("nest|%v|%s|%v|%s", nc.CLI, nc.Ext, nc.CRLF, strings.Join(nc.Lines, "\n"))
 	c.Eval(key, len(nc.Path) >= 1 || nc.Form != "stmt")
@@ -93,9 +97,34 @@ func checkNest(c *vh.Ctx, nc nestCase, n int) bool {
 	if nc.accepts(got) {
 		return true
 	}
+	if f := os.Getenv("C18_DUMP"); f != "" { // development aid: every failing case, one JSON object per line
+		if fh, err := os.OpenFile(f, os.O_APPEND|os.O_CREATE|os.O_WRONLY, 0o644); err == nil {
+			b, _ := json.Marshal(map[string]any{"case": nc, "got": got, "what": what})
+			fh.Write(append(b, '\n'))
+			fh.Close()
+		}
+	}
 	via := "Error.From of the uncaught error"
 	if nc.CLI {
 		via = "the diagnostic printed by the binary"
+	}
+	if strings.HasPrefix(nc.Kind, "builtin:") && got == -1 && !nc.CLI && strings.HasPrefix(what, "error without a location") {
+		// the binary prints `in :1:1` for it (ShowControl falls back to the base parser's current token);
+		// under a `for` body the loop fills in its statement
+		c.Violation("loc:builtin:no-location", fmt.Sprintf("error raised by a built-in (%s) on line %d of the script under [%s]: %s", nc.Kind, nc.Fault, strings.Join(nc.Path, " > "), what), nc)
+		return false
+	}
+	if strings.HasPrefix(nc.Kind, "builtin:") && got == -1 && !nc.CLI && strings.HasPrefix(what, "location names file") {
+		// known findings: an error raised by Go code of the interpreter is located in the interpreter's own
+		// source (utils.NewThrow: runtime.Caller), not in the script
+		sig := ""
+		if strings.HasSuffix(file, ".go") {
+			sig = "loc:builtin:go-source"
+		}
+		if sig != "" {
+			c.Violation(sig, fmt.Sprintf("error raised by a built-in (%s) on line %d of the script under [%s]: %s", nc.Kind, nc.Fault, strings.Join(nc.Path, " > "), what), nc)
+			return false
+		}
 	}
 	c.Violation(nestSig(nc, got), fmt.Sprintf("fault %q (%s) planted on line %d of a .%s file (crlf=%v) under [%s] is reported on line %d by %s (%s)",
 		nc.Kind, nc.Form, nc.Fault, nc.Ext, nc.CRLF, strings.Join(nc.Path, " > "), got, via, what), nc)
@@ -197,11 +226,34 @@ func cliReportedLine(c *vh.Ctx, nc nestCase, n int) (int, string) {
 
 // ---------------------------------------------------------------- streams
 
+// past failures, repaired in the repository (props/C18.json, status fixed): re-run first on every run
+var pastNest = []nestCase{
+	// 723fdcd: "class not found" was located at `:1:1` of no file
+	{Mode: "nest", Ext: "php", Lines: []string{"<?php", "$a = 1;", "$b = 2;", "$r = new NoSuchClassXyz();", "echo 'end';"}, Fault: 4, Kind: "undefined-class", Form: "assign"},
+	{Mode: "nest", Ext: "zy", Lines: []string{"$a = 1;", "function ff1($p) {", "  $q = 2;", "  return NoSuchClassXyz::m();", "}", "ff1(1);", "echo 'end';"}, Fault: 4, Kind: "undefined-static", Form: "return", Path: []string{"function"}},
+	// eb1d0e7: an interpolation on the n-th line of a string / heredoc was located on the line the literal starts
+	{Mode: "nest", Ext: "php", Lines: []string{"<?php", "$ob = new stdClass();", "$t = \"line one", "  {$ob->nope()} two\";", "echo 'end';"}, Fault: 4, Kind: "undefined-method", Form: "interpolation"},
+	{Mode: "nest", Ext: "zy", Lines: []string{"$ob = new stdClass();", "$t = <<<EOT", "first line", "", "second {$ob->nope()} line", "EOT;", "echo 'end';"}, Fault: 5, Kind: "undefined-method", Form: "interpolation-heredoc"},
+	// f0ffd63: an argument refused by a built-in function's typed parameter had no location at all (`in :1:1`)
+	{Mode: "nest", Ext: "zy", Lines: []string{"$a = 1;", "$five = 5;", "$r1 = array_filter([1], $five);", "echo 'end';"}, Fault: 3, Kind: "builtin:typed-parameter", Form: "assign"},
+}
+
 func runNest(c *vh.Ctx) {
 	n := 0
 	run := func(nc nestCase) {
 		checkNest(c, nc, n)
 		n++
+	}
+	// errors raised by built-in functions (Go code): kept out of the main streams, confirmed here
+	for i := range builtinFaults {
+		for _, path := range [][]string{nil, {"for"}, {"function"}, {"method", "foreach-generator"}} {
+			run(buildNest(c.Rand, &builtinFaults[i], &eforms[1], path))
+		}
+	}
+	for _, nc := range pastNest {
+		run(nc)
+		nc.CLI = true
+		run(nc)
 	}
 	// 1. complete small space: every enclosing construct alone and every ordered pair of them, with a
 	// fault / embedding chosen per case (the pair space is covered with a rotating fault kind)
@@ -256,7 +308,37 @@ func runNest(c *vh.Ctx) {
 			run(buildNest(c.Rand, ft, ef, []string{wrappers[i].name, wrappers[j].name}))
 		}
 	}
-	c.Res.ExhaustiveWhat += "; error locations: every fault kind × every embedding (bare and under a loop), every enclosing construct × every fault kind, every ordered pair of the " + fmt.Sprint(len(wrappers)) + " enclosing constructs"
+	// interpolation in multi-line literals: every quoting × every kind of text on the line before the
+	// fragment × every kind of text in front of it on its own line (bare), then two lines before
+	// it (under a loop / in a function)
+	for _, q := range interpQuotings {
+		for i := range strSegs {
+			for j := range strSegs {
+				if nc, ok := buildInterp(c.Rand, q, []*strSeg{&strSegs[i]}, &strSegs[j], nil); ok {
+					run(nc)
+				}
+				if nc, ok := buildInterp(c.Rand, q, []*strSeg{&strSegs[j], &strSegs[i]}, &strSegs[0], vh.Pick(c.Rand, [][]string{{"for"}, {"function"}, {"method", "while"}})); ok {
+					run(nc)
+				}
+			}
+		}
+	}
+	for i := 0; i < c.N(300, 6000); i++ {
+		var prev []*strSeg
+		for k := c.Rand.Range(0, 4); k > 0; k-- {
+			prev = append(prev, &strSegs[c.Rand.Intn(len(strSegs))])
+		}
+		depth := c.Rand.Intn(3)
+		var path []string
+		for k := 0; k < depth; k++ {
+			path = append(path, wrappers[c.Rand.Intn(len(wrappers))].name)
+		}
+		if nc, ok := buildInterp(c.Rand, vh.Pick(c.Rand, interpQuotings), prev, &strSegs[c.Rand.Intn(len(strSegs))], path); ok {
+			nc.CLI = i%25 == 0
+			run(nc)
+		}
+	}
+	c.Res.ExhaustiveWhat += "; error locations: every fault kind × every embedding (bare and under a loop), every enclosing construct × every fault kind, every ordered pair of the " + fmt.Sprint(len(wrappers)) + " enclosing constructs; interpolation in multi-line literals: 4 quotings × every ordered pair of the " + fmt.Sprint(len(strSegs)) + " kinds of preceding text (ASCII, 2/3/4-byte UTF-8, escapes, earlier interpolations)"
 	// 2. seeded deeper nests
 	for i := 0; i < c.N(1200, 30000); i++ {
 		run(genNestOK(c.Rand))
